@@ -229,6 +229,7 @@ type RunResult struct {
 	Stderr    string
 	TimedOut  bool
 	Truncated bool // output cap hit
+	Infra     bool // the run itself failed for reasons outside the program (exec error, I/O wait expired): never evidence
 }
 
 // Class summarises how the program ended: "ok", "exit:N", "laufzeitfehler", "signal:X", "timeout", "flood".
@@ -306,7 +307,87 @@ func Run(exe string, o RunOpts) RunResult {
 			r.Exit = ee.ExitCode()
 			return r
 		}
-		r.Exit, r.Stderr = -2, r.Stderr+"\nrun error: "+err.Error()
+		r.Exit, r.Stderr, r.Infra = -2, r.Stderr+"\nrun error: "+err.Error(), true
+	}
+	return r
+}
+
+// BuildSeparate compiles every module of the import closure on its own (LinkInModules=false), as a
+// user of `--module-linken=false` has to, and links the objects with gcc. The duplicate ddp_ddpmain
+// of the non-main objects is removed with objcopy -N.
+func BuildSeparate(dir, main string, o BuildOpts) BuildResult {
+	t0 := time.Now()
+	file := filepath.Join(dir, main)
+	var pr fe.Resp
+	st, log := CompPool().Do(&fe.Req{Op: "parse", File: file, WantMods: true}, &pr, 120*time.Second)
+	r := BuildResult{Resp: pr}
+	if st != pool.OK || pr.Panic != "" {
+		r.Stage, r.Log = "died", log+pr.Panic
+		return r
+	}
+	if pr.Err != "" || pr.Faulty {
+		r.Stage, r.Log = "frontend", pr.Err
+		return r
+	}
+	o.NoLinkMods = true
+	tag := fmt.Sprintf("sepO%d", o.Opt)
+	if o.NoLinkLists {
+		tag += "nl"
+	}
+	mainObj := strings.TrimSuffix(file, ".ddp") + "." + tag + ".o"
+	exe := strings.TrimSuffix(file, ".ddp") + "." + tag + ".exe"
+	r = Compile(file, mainObj, o)
+	if !r.OK {
+		return r
+	}
+	deps := map[string]bool{}
+	for _, d := range r.Resp.Deps {
+		deps[d] = true
+	}
+	objs := []string{}
+	for i, m := range pr.Mods {
+		if filepath.Clean(m) == filepath.Clean(file) {
+			continue
+		}
+		obj := filepath.Join(dir, fmt.Sprintf("mod%d.%s.o", i, tag))
+		mr := Compile(m, obj, o)
+		if !mr.OK {
+			mr.Log = "module " + m + ": " + mr.Log
+			return mr
+		}
+		if b, err := exec.Command("objcopy", "-N", "ddp_ddpmain", obj).CombinedOutput(); err != nil {
+			r.OK, r.Stage, r.Log = false, "link", "objcopy: "+string(b)
+			return r
+		}
+		for _, d := range mr.Resp.Deps {
+			deps[d] = true
+		}
+		objs = append(objs, obj)
+	}
+	var dl []string
+	for d := range deps {
+		dl = append(dl, d)
+	}
+	o.ExtraObjects = append(append([]string{}, o.ExtraObjects...), objs...)
+	ok, llog := Link(mainObj, exe, dl, o)
+	for _, ob := range objs {
+		os.Remove(ob)
+	}
+	if !ok {
+		r.OK, r.Stage, r.Log = false, "link", llog
+		return r
+	}
+	r.OK, r.Exe, r.Obj, r.Duration = true, exe, mainObj, time.Since(t0)
+	return r
+}
+
+// RunRobust = Run, but a timeout or an infrastructure failure is retried once with a very generous
+// limit, so that a loaded machine never looks like a hang or a crash of the program.
+func RunRobust(exe string, o RunOpts) RunResult {
+	r := Run(exe, o)
+	if r.TimedOut || r.Infra {
+		o.Timeout = 300 * time.Second
+		r = Run(exe, o)
 	}
 	return r
 }
